@@ -568,7 +568,7 @@ def shrink(mod, plan, cls, time_box=20.0, viol=None):
 # known findings
 
 def load_known_findings():
-    p = os.path.join(VERIF_DIR, 'known_findings.json')
+    p = os.environ.get('YPSIM_KNOWN_FINDINGS') or os.path.join(VERIF_DIR, 'known_findings.json')
     if not os.path.exists(p):
         return {'open': [], 'fixed': []}
     with open(p) as f:
@@ -738,7 +738,10 @@ def process_violations(mod, prop, tier, agg, out):
     known = []
     shrink_box = float(os.environ.get('YPSIM_SHRINK_S', '20'))
     for cls, lst in list(by_class.items())[:4]:
-        for (i, seed, v, extra) in lst[:2]:
+        reported = 0
+        for (i, seed, v, extra) in lst[:8]:
+            if reported >= 2:
+                break
             plan = mod.gen(seed, tier)
             plan.update(extra)
             v0 = _violates(mod, plan, cls)
@@ -767,6 +770,7 @@ def process_violations(mod, prop, tier, agg, out):
                 out('HARNESS-ERROR nondeterministic replay of %s:\n%s%s' % (path, rp.stdout[-1500:], rp.stderr[-1500:]))
                 return EXIT_HARNESS, unlisted, known
             unlisted += 1
+            reported += 1
             exit_code = EXIT_VIOLATION
             out('violation class=%s witness=%s detail=%s (run %d, seed %d, shrunk and replayed)'
                 % (cls, wit, json.dumps(vs[0]['detail'])[:400], i, seed))
